@@ -1028,5 +1028,36 @@ pub mod lemmas {
         lemma_wrap_is_chunks(sq, w);
     }
 
+
+    // ---------------------------------------------------------------------------------------------
+    // C04: reading a records and then b records is reading a + b records.  Every read operation's contract moves the cursor along
+    // gstart / fa_start (next: one step; record-set reads: k steps; owned iterators: one step), so any interleaving of them walks
+    // one and the same stream: nothing is lost, duplicated or reordered at the switches.
+    // ---------------------------------------------------------------------------------------------
+    pub proof fn lemma_fastq_stream_composes(f: Seq<u8>, p: int, a: int, b: int)
+        requires a >= 0, b >= 0
+        ensures
+            [C04|lemma.fastq_stream_composes] gstart(f, gstart(f, p, a), b) == gstart(f, p, a + b),
+        decreases b
+    {
+        if b > 0 {
+            lemma_fastq_stream_composes(f, p, a, b - 1);
+            assert(gstart(f, gstart(f, p, a), b) == c4(f, gstart(f, gstart(f, p, a), b - 1)) + 1);
+            assert(gstart(f, p, a + b) == c4(f, gstart(f, p, a + b - 1)) + 1);
+        }
+    }
+    pub proof fn lemma_fasta_stream_composes(f: Seq<u8>, p: int, a: int, b: int)
+        requires a >= 0, b >= 0
+        ensures
+            [C04|lemma.fasta_stream_composes] fa_start(f, fa_start(f, p, a), b) == fa_start(f, p, a + b),
+        decreases b
+    {
+        if b > 0 {
+            lemma_fasta_stream_composes(f, p, a, b - 1);
+            assert(fa_start(f, fa_start(f, p, a), b) == fa_bnd(f, fa_start(f, fa_start(f, p, a), b - 1)));
+            assert(fa_start(f, p, a + b) == fa_bnd(f, fa_start(f, p, a + b - 1)));
+        }
+    }
+
     } // verus!
 }
